@@ -252,6 +252,12 @@ class TelnetTransport(Transport):
             if self._control_char_sent_counter < self._control_char_sent_limit:
                 self._handle_control_chars()
 
+        if self._eof and not self._cooked_buf:
+            raise ScrapliConnectionError(
+                "encountered EOF reading from transport; typically means the device closed the "
+                "connection"
+            )
+
         buf = self._cooked_buf
         self._cooked_buf = b""
 
